@@ -49,7 +49,12 @@ Urls == <<
   MkUrl("https", "", "ab.ba.a", "", "/ab.ba.a/"),
   MkUrl("https", "", "ab.ba", "", "/AB/Ba"),
   MkUrl("https", "", "b.a", "", "/A.B/b?A=B"),
-  MkUrl("https", "", "b.a", "", "/bab")
+  MkUrl("https", "", "b.a", "", "/bab"),
+  \* regex metacharacters (the second alphabet {a,+,(,.,/,^} of the checks): literal text in a pattern,
+  \* they must be escaped by every translation of the pattern into a regex
+  MkUrl("https", "", "aa.ba", "", "/a+a"),
+  MkUrl("https", "", "aa.ba", "", "/a+(a)/+"),
+  MkUrl("https", "", "a.ba", "", "/aa/(a+.a")
 >>
 
 Pats == [left : {"none", "pipe", "dpipe"}, body : SeqsUpTo(Sigma, 1, MaxLen), right : BOOLEAN]
